@@ -79,6 +79,16 @@ check("C02", "model_checking",
       "Trusted: token joiner, literal escaper, value projection, TLC. Out of domain (dropped, counted): |ints| > 2^20, non-dyadic floats, depth > 6, multi-key dict printing.",
       "TLA+ definitional semantics evaluated by TLC as oracle + replay on the real VM (exhaustive small scope and random histories)", "DESIGN.md section 4 C02")
 
+check("C03", "model_checking",
+      "spec/Trace_Host.tla states the host contract of Run: Matched followed by RestInput is the input, Matched alone is consumed entirely "
+      "and reproduces Matched, and value, process text, variables, generator state and st callbacks of Run(input) equal those of Run(Matched) "
+      "on an identical fresh VM; when the consumed text is a program of the Lang oracle its value must be the one spec/Lang.tla prescribes "
+      "(so both runs being wrong in the same way is caught too).  The harness performs the paired experiment for oracle programs, the "
+      "repository corpus and generated programs, each followed by constructs that break off (literal, call, index, block, template, operator "
+      "prefixes) after ';', newline, blank or nothing, under random flag configurations; TLC validates every recorded experiment.",
+      "Trusted: value projection, whitespace-insensitive comparison of the process text, TLC. Tails are sampled from a fixed family plus truncations.",
+      "TLC trace validation of paired Run(input)/Run(Matched) experiments + TLA+ Lang oracle for the consumed program", "DESIGN.md section 4 C03")
+
 NOT_YET = "check under construction in this build phase (planned in DESIGN.md section 4); not yet claimed"
 
 m = {
